@@ -110,12 +110,12 @@ func isBoolConst(info *eng.Info, e ast.Expr, want bool) bool {
 
 // lockSpec describes which fields a lock protects.
 type lockSpec struct {
-	Lock        string            // lock identity (qualified field)
-	Fields      []string          // protected fields (qualified)
+	Lock        string                  // lock identity (qualified field)
+	Fields      []string                // protected fields (qualified)
 	CallerHolds map[string]eng.LockMode // functions entered with the lock held
-	Exempt      map[string]string // function name -> reason (init phase / single-threaded)
-	ReadNeedsW  bool              // reads need the write lock too (plain Mutex: any mode is W anyway)
-	SyncLits    []string          // callees that run a literal argument synchronously under the caller's locks
+	Exempt      map[string]string       // function name -> reason (init phase / single-threaded)
+	ReadNeedsW  bool                    // reads need the write lock too (plain Mutex: any mode is W anyway)
+	SyncLits    []string                // callees that run a literal argument synchronously under the caller's locks
 }
 
 // lockStateOf computes the lock analysis of f under the spec's conventions.
